@@ -1,5 +1,6 @@
 import Gallia.Lib.Proto
 import Gallia.Model.Randomize
+import Gallia.Model.VEcuRng
 open Gallia Gallia.Proto Gallia.Randomize
 
 /-! line-protocol driver for the C16 model (`RandomUDSServer.randomize`)
@@ -20,6 +21,17 @@ open Gallia Gallia.Proto Gallia.Randomize
   s add|discard <d> <a> <x> | s update <d> <a> <xs>     <list(d)> used=<n> fill=<n> size=<n>
   s sub|or|isub|ior <d> <a> <b> | s copy <d> <a>     d := a - b | a | b | (a -= b) | (a |= b) | a.copy()
   s has <a> <x>                                      -> 0 | 1
+
+ handler layer (Model/VEcuRng.lean):
+  h cfg <seed> <p_identifier> <p_correct_payload_format> <p_dtc_status_mask>     (floats as IEEE-754 bit patterns, decimal)
+  h clear                                             forget the recorded streams
+  h rng <hex(seed text)|-> <v0,v1,...|->             results of the calls made on the RNG seeded with that text (- = RNG())
+  h state <session> <saType|-> <seed hex|->
+  h req <kind> <pdu hex|-> <a> <b>                    -> reply=<..> session=<n> sa=<type>:<seed hex>|- trace=<seg>;<seg>..
+                                                        seg = <hex(seed text)|->:<call>,<call>..   call = R | I<lo>-<hi> | E<mean>
+  h update <dsc|ecureset|tp|saseed|sakey|other> <a> <seed hex|->   -> session=<n> sa=..   (update_state on the current state)
+  h sources                                           -> the declared AST tables (handler|sources|free names|draw calls ...)
+  h repr <hex>                                        -> hex(utf8(str(bytes)))
 -/
 
 structure St where
@@ -32,6 +44,9 @@ structure St where
   fdraws : Array Nat := #[]
   bdraws : Array Bool := #[]
   regs : Array PySet.PySet := #[]
+  hcfg : VEcuRng.Cfg := ⟨0, ⟨0, 0, 0⟩⟩
+  hstreams : List (Option String × Array Nat) := []
+  hstate : VEcuRng.State := {}
 
 def parseNats (s : String) : Option (List Nat) :=
   if s == "-" then some [] else (s.splitOn ",").mapM String.toNat?
@@ -137,9 +152,127 @@ def setOp (s : St) : List String → St × String
     | _, _, _ => (s, "bad-op")
   | _ => (s, "bad-op")
 
+namespace H
+open Gallia.VEcuRng
+
+def hexText (t : String) : String := if t.isEmpty then "-" else hexStr t.toUTF8.toList
+def unhexText (h : String) : Option String := (parseHex h).map (fun bs => String.ofList (bs.map (fun b => Char.ofNat b.toNat)))
+def natsOf (bs : Bytes) : List Nat := bs.map (·.toNat)
+def hexNats (l : List Nat) : String := hexOrDash (l.map UInt8.ofNat)
+
+/-- the recorded results as a stream: the i-th call on the object gets the i-th recorded value -/
+def streamOf (tbl : List (Option String × Array Nat)) (key : Option String) : DrawStream :=
+  fun cs => ((tbl.find? (fun e => e.1 == key)).map (·.2)).getD #[] |>.getD (cs.length - 1) 0
+
+def showCall : Call → String
+  | .random => "R"
+  | .randint lo hi => s!"I{lo}-{hi}"
+  | .expo m => s!"E{m}"
+
+def showSeg (sg : Segment) : String :=
+  (match sg.1 with | some t => hexText t | none => "-") ++ ":" ++ ",".intercalate (sg.2.map showCall)
+
+def showReply : Option Reply → String
+  | none => "none"
+  | some (.neg sid nrc) => s!"neg,{sid},{nrc}"
+  | some (.ecuReset rt none) => s!"ecureset,{rt},-"
+  | some (.ecuReset rt (some v)) => s!"ecureset,{rt},{v}"
+  | some (.saSeed t sd) => s!"saseed,{t},{hexNats sd}"
+  | some (.saKey t) => s!"sakey,{t}"
+  | some (.routine sf rid pl) => s!"routine,{sf},{rid},{hexNats pl}"
+  | some (.rdbi did pl) => s!"rdbi,{did},{hexNats pl}"
+  | some (.wdbi did) => s!"wdbi,{did}"
+  | some (.ioctl did pl) => s!"ioctl,{did},{hexNats pl}"
+  | some .clearDTC => "cleardtc"
+  | some (.dtcs m recs) => s!"dtcs,{m}," ++ ".".intercalate (recs.map (fun e => s!"{e.1}={e.2}"))
+  | some (.dsc x) => s!"dsc,{x}"
+  | some .testerPresent => "tp"
+  | some (.chain pdu) => s!"chain,{hexNats pdu}"
+
+def parseReq (kind : String) (pdu : List Nat) (a b : Nat) : Option Request :=
+  match kind with
+  | "ecureset" => some (.ecuReset pdu a)
+  | "requestseed" => some (.requestSeed a)
+  | "sendkey" => some (.sendKey a pdu)
+  | "routine" => some (.routineControl pdu a b)
+  | "rdbi" => some (.readDataById pdu a)
+  | "wdbi" => some (.writeDataById pdu a)
+  | "ioctl" => some (.ioControl pdu a)
+  | "cleardtc" => some (.clearDTC a)
+  | "dtcmask" => some (.reportDTCByStatusMask a)
+  | "dtcother" => some .readDTCOther
+  | "other" => some (.other a)
+  | _ => none
+
+def showTable (t : List (String × List String)) : String :=
+  " ## ".intercalate (t.map (fun e => e.1 ++ " :: " ++ " ;; ".intercalate e.2))
+
+def sources : String :=
+  "handlers=" ++ " ;; ".intercalate declaredHandlers ++ " @@ sources=" ++ showTable declaredSources
+    ++ " @@ free=" ++ showTable declaredFreeNames ++ " @@ draws=" ++ showTable declaredDrawCalls
+    ++ " @@ texts=" ++ showTable (declaredTexts.map (fun e => (e.1, [e.2])))
+
+end H
+
+def hstep (s : St) : List String → St × String
+  | ["cfg", seed, a, b, c] =>
+    match seed.toInt?, a.toNat?, b.toNat?, c.toNat? with
+    | some seed, some a, some b, some c =>
+      ({ s with hcfg := ⟨seed, ⟨VEcuRng.floatOfBits a, VEcuRng.floatOfBits b, VEcuRng.floatOfBits c⟩⟩ }, "ok")
+    | _, _, _, _ => (s, "bad-op")
+  | ["clear"] => ({ s with hstreams := [] }, "ok")
+  | ["rng", t, vs] =>
+    match (if t == "-" then some none else (H.unhexText t).map some), parseNats vs with
+    | some key, some vs =>
+      let old := ((s.hstreams.find? (fun e => e.1 == key)).map (·.2.size)).getD 0
+      if vs.length < old then (s, "ok")
+      else ({ s with hstreams := (key, vs.toArray) :: s.hstreams.filter (fun e => e.1 != key) }, "ok")
+    | _, _ => (s, "bad-op")
+  | ["state", sess, t, sd] =>
+    match sess.toNat?, parseHex sd with
+    | some sess, some sd =>
+      ({ s with hstate := ⟨sess, t.toNat?.map (fun t => (t, H.natsOf sd))⟩ }, "ok")
+    | _, _ => (s, "bad-op")
+  | ["req", kind, pdu, a, b] =>
+    match parseHex pdu, a.toNat?, b.toNat? with
+    | some pdu, some a, some b =>
+      match H.parseReq kind (H.natsOf pdu) a b with
+      | some req =>
+        let w : VEcuRng.World := ⟨fun t => H.streamOf s.hstreams (some t), H.streamOf s.hstreams none, fun _ => 0⟩
+        let o := VEcuRng.respondAfterDefault s.hcfg w s.hstate req
+        let sa := match o.st.lastSA with | some (t, sd) => s!"{t}:{H.hexNats sd}" | none => "-"
+        (s, s!"reply={H.showReply o.reply} session={o.st.session} sa={sa} trace={";".intercalate (o.trace.map H.showSeg)}")
+      | none => (s, "bad-op")
+    | _, _, _ => (s, "bad-op")
+  | ["update", kind, a, sd] =>
+    match a.toNat?, parseHex sd with
+    | some a, some sd =>
+      let r : Option VEcuRng.Reply := match kind with
+        | "dsc" => some (.dsc a)
+        | "ecureset" => some (.ecuReset a none)
+        | "tp" => some .testerPresent
+        | "saseed" => some (.saSeed a (H.natsOf sd))
+        | "sakey" => some (.saKey a)
+        | "other" => some (.neg a 0)
+        | _ => none
+      match r with
+      | some r =>
+        let st := VEcuRng.updateState s.hstate r
+        let sa := match st.lastSA with | some (t, sd) => s!"{t}:{H.hexNats sd}" | none => "-"
+        (s, s!"session={st.session} sa={sa}")
+      | none => (s, "bad-op")
+    | _, _ => (s, "bad-op")
+  | ["sources"] => (s, H.sources)
+  | ["repr", h] =>
+    match parseHex h with
+    | some bs => (s, H.hexText (VEcuRng.pyBytesRepr (H.natsOf bs)))
+    | none => (s, "bad-op")
+  | _ => (s, "bad-op")
+
 def step (s : St) (line : String) : St × String :=
   match words line with
   | ["reset"] => ({}, "ok")
+  | "h" :: rest => hstep s rest
   | ["params", a, b, c, d] =>
     match parseNats a, parseNats b, parseNats c, parseNats d with
     | some a, some b, some c, some d => ({ s with p := ⟨a, b, c, d⟩ }, "ok")
